@@ -240,9 +240,10 @@ def worker(args):
                         if ok:
                             fails.append({"case": case, "what": last.what, "observed": last.observed, "expected": last.expected})
             rn = [c[0] for _, c in window if c[0].startswith("rename")]
-            if rn:
+            if rn and (not ctx.quick or (len(calls) + len(content or b"")) % 2 == 0):
+                # every write-type call of the second run from the creation of its temporary file to its rename
                 wk = [(i, c) for i, c in window if c[0] in WRITE_CALLS]
-                picks = [None] + (wk[len(calls) % 3::5][:2] if ctx.quick else wk)
+                picks = [None] + wk
                 for pk in picks:
                     inject = None if pk is None else "%s:signal=KILL:when=%d" % (pk[1][0], pk[1][1])
                     case = {"content": content, "action": action, "overlap": rn[0], "kill": inject}
